@@ -96,13 +96,11 @@ Proof. apply R_same_queues. apply queues_wake_consumer. Qed.
 Lemma R_dec_qos cfg s c h u q : R (dec_qos_and_consume_next cfg s c h u) q = R s q.
 Proof.
   unfold dec_qos_and_consume_next. destruct (get_chan s c h) as [ch|]; [|reflexivity].
+  rewrite (R_same_queues _ _ q (queues_wake_consumers _ _ _ _)). apply R_same_queues.
   destruct (find_consumer ch (u_ctag u)).
-  - destruct (wake_consumer s c h (u_ctag u)) as [s1 b] eqn:Ew.
-    assert (E1 : R s1 q = R s q) by (replace s1 with (fst (wake_consumer s c h (u_ctag u))) by (rewrite Ew; reflexivity); apply R_wake).
-    rewrite <- E1. apply R_same_queues.
-    destruct (cfg_rabbit cfg); [rewrite !queues_upd_chan; reflexivity|].
+  - destruct (cfg_rabbit cfg); [rewrite !queues_upd_chan; reflexivity|].
     destruct (get_conn _ c); cbn; rewrite ?queues_upd_chan; reflexivity.
-  - apply R_same_queues. destruct (get_conn _ c); cbn; rewrite ?queues_upd_chan; reflexivity.
+  - destruct (get_conn _ c); cbn; rewrite ?queues_upd_chan; reflexivity.
 Qed.
 
 Lemma R_fold_dec cfg c h sel : forall s q, R (fold_left (fun s u => dec_qos_and_consume_next cfg s c h u) sel s) q = R s q.
